@@ -42,7 +42,8 @@ def run(ctx):
         ctx.ob("E4.accumulate", fk + "/covers-all", okc, "loop iterates %s and sigs[0] is added %d time(s) on the exits" % (cov, len(adds0)), where=where(f))
         n, _ = check_arm_purity(ctx, "E2-A", P, [f])
         ctx.floor("E2-A", "result-variant switch in try_from", n, 1)
-        F.check_no_dropping_adapters(ctx, "E7.adapters", P, [fk])
+        allow_skip = {(fk, "skip"): "skip(1): element 0 is added separately on the exits"} if (cov == ["tail1"] and len(adds0) >= 1) else {}
+        F.check_no_dropping_adapters(ctx, "E7.adapters", P, [fk], allow=allow_skip)
     # verify wrapper
     v = ctx.need_fn("E2-A", "AggregateSignature<C>::verify")
     if v is not None:
